@@ -217,6 +217,10 @@ def c01(prop, tier, seed, core):
     else:
         add_tsan_quick(m, core, prop, os.path.join(core.WORK, prop), seed)
         m["rule"] = core.RULES["progsim"] + " The quick tier also runs the stress engine (4500 jobs, two configurations) in a ThreadSanitizer build with an instrumented standard library; a report is a violation."
+    # the background collector on its own: a delayed last command followed by silence
+    add_hostile(m, core, prop, os.path.join(core.WORK, prop), tier, ["lone-late-send"], [e["signature"] for e in core.known_for(prop)])
+    m["rule"] += (" One separate process: 36 rounds in which a thread's last command is held up for 0.5-9.5 ms right before it enters the queue, the thread exits, "
+                  "and nothing calls into the library afterwards; the background collector (2 ms interval) must report the span.")
     return m
 
 
@@ -252,6 +256,21 @@ def c04(prop, tier, seed, core):
 
 
 HANDLERS["C04"] = c04
+
+
+def c06(prop, tier, seed, core):
+    m = core.check_progsim_family(prop, tier, seed)
+    work = os.path.join(core.WORK, prop)
+    known_sigs = [e["signature"] for e in core.known_for(prop)]
+    # several roots that continue one and the same trace id, a span over all of them
+    add_hostile(m, core, prop, work, tier, ["shared-trace-id", "shared-trace-id-cancelable"], known_sigs)
+    m["rule"] = core.RULES["progsim"] + (" Two separate processes run 150 seeded rounds each in which 2-4 roots continue the SAME trace id, a span is created over all of "
+                                          "them, events and properties are attached by every route with collector cycles in between, and every copy of the span (told "
+                                          "apart by its parent id) must carry each attachment exactly once.")
+    return m
+
+
+HANDLERS["C06"] = c06
 
 
 def c16(prop, tier, seed, core):
